@@ -22,9 +22,10 @@ const (
 func pickParams(r *ev.Run, rng *rand.Rand, idx int, hseed int64) params {
 	p := params{Hist: idx, HSeed: hseed, Ticks: r.Pick(30, 40)}
 	small := []int{1, 2, 3, 5, 10, 10, 33, 64}
-	big := []int{600, 1023, 1024, 1025, 1100}
+	// more regions than one scan batch (1024) and than two; 512 is the sample size of the estimate
+	big := []int{600, 1023, 1024, 1025, 1100, 2048, 2049, 3000}
 	if r.Thorough() {
-		big = append(big, 2047, 2048, 2049, 2500)
+		big = append(big, 513, 2047, 2500, 3073, 4100)
 	}
 	if rng.Intn(100) < r.Pick(22, 30) {
 		p.N = big[rng.Intn(len(big))]
@@ -48,18 +49,19 @@ func pickParams(r *ev.Run, rng *rand.Rand, idx int, hseed int64) params {
 	p.Reader = rng.Intn(10) < 4
 	p.ConfigPlay = rng.Intn(10) < 4
 	p.Topology = rng.Intn(10) == 0 && p.N >= 3
+	p.Keys = "fixed-width"
+	if rng.Intn(10) < 3 {
+		p.Keys = "prefixes" // a, a\x00, aa, job-1, job-10, job-100, ...: keys that are prefixes of each other
+	}
 	if rng.Intn(10) < 4 {
 		// regions pd has not heard of yet: head / tail / scan-batch boundary / anywhere
 		k := 1 + rng.Intn(2)
 		for i := 0; i < k; i++ {
 			var g int
 			switch rng.Intn(5) {
-			case 0:
-				g = 0
-			case 1:
-				g = p.N - 1
-			case 2:
-				g = 1023 + rng.Intn(3)
+			case 0, 1, 2:
+				hp := hotPositions(p.N)
+				g = hp[rng.Intn(len(hp))]
 			default:
 				g = rng.Intn(p.N)
 			}
@@ -70,6 +72,46 @@ func pickParams(r *ev.Run, rng *rand.Rand, idx int, hseed int64) params {
 		sort.Ints(p.Gaps)
 	}
 	return p
+}
+
+// hotPositions are the region indices at which a scan that works in batches of 1024 with samples of
+// 512 can go wrong: first, last, and both sides of every batch / sample boundary.
+func hotPositions(n int) []int {
+	var out []int
+	seen := map[int]bool{}
+	for _, v := range []int{0, 511, 512, 513, 1023, 1024, 1025, 2047, 2048, 2049, 3071, 3072, 3073, n - 2, n - 1} {
+		if v >= 0 && v < n && !seen[v] {
+			seen[v] = true
+			out = append(out, v)
+		}
+	}
+	return out
+}
+
+// bounds returns the n+1 region boundaries ("" first and last).
+func bounds(n int, scheme string) []string {
+	out := make([]string, n+1)
+	if scheme != "prefixes" {
+		for i := 1; i < n; i++ {
+			out[i] = boundary(i, n)
+		}
+		return out
+	}
+	keys := []string{}
+	for _, k := range []string{"a", "a\x00", "a\x00\x00", "aa", "aa\x00", "ab", "b", "job-", "job-\x00"} {
+		if len(keys) < n-1 {
+			keys = append(keys, k)
+		}
+	}
+	for i := 1; len(keys) < n-1; i++ {
+		keys = append(keys, fmt.Sprintf("job-%d", i))
+		if i%7 == 0 && len(keys) < n-1 {
+			keys = append(keys, fmt.Sprintf("job-%d\x00", i))
+		}
+	}
+	sort.Strings(keys)
+	copy(out[1:], keys)
+	return out
 }
 
 func boundary(i, n int) string {
@@ -124,10 +166,11 @@ func (w *world) setup() bool {
 	for _, g := range p.Gaps {
 		gap[g] = true
 	}
+	bs := bounds(p.N, p.Keys)
 	for i := 0; i < p.N; i++ {
-		w.regs = append(w.regs, &regionRec{id: uint64(1000 + i), start: boundary(i, p.N), end: boundary(i+1, p.N)})
+		w.regs = append(w.regs, &regionRec{id: uint64(10000 + i), start: bs[i], end: bs[i+1]})
 	}
-	w.nextID = uint64(1000 + p.N)
+	w.nextID = uint64(10000 + p.N)
 	w.cfg = drConfig(p.TP, p.TD, w.asyncWait(), "zone")
 	if p.StartMode == modeMaj {
 		w.cfg.ReplicationMode = modeMaj
@@ -301,6 +344,7 @@ const (
 	epPartial
 	epNear
 	epIdle
+	epWalk // defects at the hot positions repaired one after the other: the cursor walks across the batch boundaries
 )
 
 const (
@@ -320,6 +364,10 @@ type epoch struct {
 	age     int
 	frac    float64
 	done    bool
+	// walk: step at which each defective region reports integrity (absent regions: show up)
+	repairAt map[*regionRec]int
+	defOf    map[*regionRec]int
+	bounceAt int // step at which the configuration is bounced majority -> dr-auto-sync (-1 = never)
 }
 
 func (w *world) staleID(cur uint64) uint64 {
@@ -366,16 +414,59 @@ func (w *world) compliant(g *regionRec, id uint64) bool {
 func (w *world) newEpoch(id uint64) {
 	rng := w.rng
 	e := &epoch{id: id, order: rng.Intn(3), hold: 1 + rng.Intn(4), frac: 0.2 + 0.6*rng.Float64()}
-	x := rng.Intn(10)
+	e.bounceAt = -1
+	x := rng.Intn(12)
+	if len(w.regs) > 1024 && x < 5 && rng.Intn(2) == 0 {
+		x = 5 + rng.Intn(7) // worlds larger than a scan batch: more near-complete and walk streams
+	}
 	switch {
 	case x < 3:
 		e.kind = epComplete
 	case x < 5:
 		e.kind = epPartial
-	case x < 9:
+	case x < 8:
 		e.kind = epNear
-	default:
+	case x < 9:
 		e.kind = epIdle
+	default:
+		e.kind = epWalk
+	}
+	if w.forceEpoch >= 0 {
+		// after a bounce in the middle of a walk: the tail of the key space reports first
+		e.kind, e.order, w.forceEpoch = w.forceEpoch, 1, -1
+	}
+	if e.kind == epWalk {
+		e.repairAt, e.defOf = map[*regionRec]int{}, map[*regionRec]int{}
+		hp := hotPositions(len(w.regs))
+		rng.Shuffle(len(hp), func(i, j int) { hp[i], hp[j] = hp[j], hp[i] })
+		k := 2 + rng.Intn(5)
+		if k > len(hp) {
+			k = len(hp)
+		}
+		pos := append([]int(nil), hp[:k]...)
+		sort.Ints(pos)
+		step := 1
+		for _, i := range pos { // repaired in key order, one or two per step
+			g := w.regs[i]
+			e.defects = append(e.defects, g)
+			e.defOf[g] = rng.Intn(3)
+			e.repairAt[g] = step
+			if rng.Intn(3) != 0 {
+				step++
+			}
+		}
+		// regions anywhere that are late: some report before the cursor reaches them, some after
+		for j := len(w.regs) / 12; j > 0; j-- {
+			g := w.regs[rng.Intn(len(w.regs))]
+			if _, ok := e.repairAt[g]; !ok {
+				e.defects = append(e.defects, g)
+				e.defOf[g] = rng.Intn(3)
+				e.repairAt[g] = 1 + rng.Intn(step+1)
+			}
+		}
+		if w.p.ConfigPlay && rng.Intn(4) == 0 {
+			e.bounceAt = 1 + rng.Intn(step+1)
+		}
 	}
 	if e.kind == epNear {
 		var absent []*regionRec
@@ -406,7 +497,8 @@ func (w *world) newEpoch(id uint64) {
 				case 1:
 					g = present[len(present)-1]
 				case 2:
-					g = present[clamp(1022+rng.Intn(4), 0, len(present)-1)]
+					hp := hotPositions(len(present))
+					g = present[hp[rng.Intn(len(hp))]]
 				default:
 					g = present[rng.Intn(len(present))]
 				}
@@ -415,7 +507,8 @@ func (w *world) newEpoch(id uint64) {
 		}
 	}
 	w.ep = e
-	w.logf("epoch", "id", id, "kind", []string{"complete", "partial", "near-complete", "idle"}[e.kind], "order", e.order,
+	w.r.Count("epochs_"+[]string{"complete", "partial", "near-complete", "idle", "walk"}[e.kind], 1)
+	w.logf("epoch", "id", id, "kind", []string{"complete", "partial", "near-complete", "idle", "walk"}[e.kind], "order", e.order,
 		"defect", []string{"stale-id", "simple-majority", "no-status", "absent"}[e.defKind], "defects", len(e.defects), "hold", e.hold)
 }
 
@@ -438,7 +531,7 @@ func (w *world) regionStep() {
 		w.ep = nil
 		n := len(w.regs)
 		k := rng.Intn(40)
-		if rng.Intn(4) == 0 {
+		if (n <= 1100 && rng.Intn(4) == 0) || rng.Intn(8) == 0 {
 			k = n
 		}
 		for i := 0; i < k && n > 0; i++ {
@@ -502,6 +595,31 @@ func (w *world) regionStep() {
 			} else if rng.Intn(10) == 0 {
 				w.bad(g, rng.Intn(3), cur.ID)
 			}
+		}
+	case epWalk:
+		if e.age == 0 {
+			for _, g := range e.defects {
+				if g.present {
+					w.bad(g, e.defOf[g], cur.ID)
+				}
+			}
+			deliverAll(true)
+		}
+		for _, g := range e.defects {
+			if e.repairAt[g] == e.age {
+				w.put(g, true, cur.ID, integ)
+				w.r.Count("walk_repairs", 1)
+			}
+		}
+		// regions the cursor has passed keep heartbeating (same report again), in no particular order
+		for j := 0; j < 20 && len(present) > 0; j++ {
+			if g := present[rng.Intn(len(present))]; w.compliant(g, cur.ID) {
+				w.put(g, true, cur.ID, integ)
+			}
+		}
+		if e.bounceAt == e.age && w.cfg.ReplicationMode == modeDR {
+			w.bounce()
+			return
 		}
 	case epNear:
 		if e.age == 0 {
@@ -592,6 +710,18 @@ func (w *world) topologyStep(cur uint64) {
 		return
 	}
 	i := rng.Intn(len(w.regs))
+	if rng.Intn(2) == 0 {
+		// around the cursor: the first region that is not yet compliant, or the one just before it
+		for j, g := range w.regs {
+			if g.present && !w.compliant(g, cur) {
+				i = j
+				if j > 0 && rng.Intn(2) == 0 {
+					i = j - 1
+				}
+				break
+			}
+		}
+	}
 	a := w.regs[i]
 	if !a.present {
 		return
@@ -599,6 +729,9 @@ func (w *world) topologyStep(cur uint64) {
 	mid := a.start + "m"
 	if a.start == "" {
 		mid = "a"
+	}
+	if w.p.Keys == "prefixes" && a.start != "" {
+		mid = a.start + "\x00" // the smallest key after the start key
 	}
 	if !(a.start < mid && (a.end == "" || mid < a.end)) {
 		return
@@ -665,6 +798,24 @@ func (w *world) configStep() {
 	} else {
 		w.r.Count("config_update_rejected", 1)
 	}
+}
+
+// bounce switches to majority and straight back: a new state id is issued and the recovery starts
+// over, whatever the scan had reached. The next report stream starts from the tail of the key space.
+func (w *world) bounce() {
+	w.logf("bounce")
+	w.r.Count("config_bounce_mid_walk", 1)
+	for _, mode := range []string{modeMaj, modeDR} {
+		n := w.cfg
+		n.ReplicationMode = mode
+		ci := callInfo{kind: "config", newCfg: &n, modeToDR: mode == modeDR}
+		if err := w.call(ci, func() error { return w.m.UpdateConfig(n) }); err != nil {
+			w.r.Count("config_update_rejected", 1)
+			return
+		}
+		w.cfg = n
+	}
+	w.forceEpoch = epPartial
 }
 
 func (w *world) restartStep() {
